@@ -167,6 +167,7 @@ func PropC13(c *vs.Case, f Factory, kind string) error {
 	valid := ""
 	onlySuperseded := false
 	servedMalformed := false
+	claimedLength := int64(0)
 	h := func(_ *http.Request, reqBody []byte) HookResponse {
 		req, _ := vs.DecodeJSON(reqBody)
 		var resp map[string]any
@@ -185,7 +186,7 @@ func PropC13(c *vs.Case, f Factory, kind string) error {
 			}
 		}
 		servedMalformed = true
-		return HookResponse{Code: code, Body: []byte(body), Header: http.Header{"Retry-After": []string{"1"}}}
+		return HookResponse{Code: code, Body: []byte(body), Header: http.Header{"Retry-After": []string{"1"}}, ContentLength: claimedLength}
 	}
 	validFor := func(which string) map[string]any {
 		// compute the valid answer once, from a dry evaluation on the current store
@@ -269,6 +270,12 @@ func PropC13(c *vs.Case, f Factory, kind string) error {
 		}
 		c.Class("status-code")
 	}
+	if c.Prob(1, 8) {
+		// the Content-Length the answer claims is the hook's to choose as well: absurdly large, wrong, or "unknown"
+		claimedLength = []int64{1 << 62, 9223372036854775807, -1, 1, int64(len(body)) + 100}[c.Int(5)]
+		desc += fmt.Sprintf(" [claimed Content-Length %d]", claimedLength)
+		c.Class("bogus-content-length")
+	}
 	c.Describe(func() any {
 		return map[string]any{"scenario": scn, "attacked": map[string]any{"hook": which, "finalizing": finalize}, "mutation": desc, "body": body, "code": code}
 	})
@@ -293,7 +300,9 @@ func PropC13(c *vs.Case, f Factory, kind string) error {
 		}
 	}
 	if customize {
-		env.W.Hooks.Handle(CustomizeURL, func(_ *http.Request, _ []byte) HookResponse { return HookResponse{Code: code, Body: []byte(body)} })
+		env.W.Hooks.Handle(CustomizeURL, func(_ *http.Request, _ []byte) HookResponse {
+			return HookResponse{Code: code, Body: []byte(body), ContentLength: claimedLength}
+		})
 		// the customize answer is cached per parent generation: bump it so the hook is asked again
 		env.W.Sim.ExtUpdate(scn.Cfg.ParentResource, scn.ParentNS(), scn.ParentName(), func(o map[string]any) {
 			o["spec"].(map[string]any)["other"] = "bumped"
